@@ -239,6 +239,9 @@ pub fn oracle(f: u32, a: &Args, out: &Args) -> Option<(&'static str, String)> {
             if out[0][0] == 1 && !(100..=599).contains(&out[0][1]) {
                 return Some(("C18", format!("status string parsed to out-of-range value {}", out[0][1])));
             }
+            if out[0][0] == 1 && (out[0][2] == 1) != (200..=299).contains(&out[0][1]) {
+                return Some(("C18", format!("status {} counts as acceptance = {}", out[0][1], out[0][2] == 1)));
+            }
             None
         }
         409 => {
